@@ -469,16 +469,19 @@ def selftest(repo, n_states=14, seed=11):
         cap, fill = rng.randint(1, 5), rng.choice([-1, 0, 7])
         b = mod.SignalBuffer(1.0, float(cap), fill_value=float(fill))
         ex.append(f'g_init {zi(cap)} {zi(fill)} = MOk {_state(b)}')
-        for _ in range(rng.randint(0, 4)):          # some history first, through the real methods
-            u = rng.random()
-            if u < 0.6:
-                n = rng.randint(1, cap + 2)
-                b.append_data(np.arange(pos + 1, pos + n + 1, dtype=float))
-                pos += n
-            elif u < 0.85:
-                b.invalidate_samples(rng.randint(max(0, b.get_samples_lb() - 1), b.get_samples_ub() + 1))
-            else:
-                b.resize(float(rng.randint(1, 2 * cap)))
+        try:
+            for _ in range(rng.randint(0, 4)):      # some history first, through the real methods
+                u = rng.random()
+                if u < 0.6:
+                    n = rng.randint(1, cap + 2)
+                    b.append_data(np.arange(pos + 1, pos + n + 1, dtype=float))
+                    pos += n
+                elif u < 0.85:
+                    b.invalidate_samples(b.get_samples_ub() - rng.randint(-1, cap + 1))
+                else:
+                    b.resize(float(rng.randint(1, 2 * cap)))
+        except (IndexError, ValueError):
+            pass                                    # (a changed source may refuse: the state reached so far will do)
         lb, ub = b.get_samples_lb(), b.get_samples_ub()
         pick = lambda: rng.randint(lb - 2, ub + 2)
         st = _state(b)
